@@ -1012,6 +1012,7 @@ func TestC10(t *testing.T) {
 				rep.Coverage["evaluations"] = 0
 				rep.Coverage["distinct_nontrivial"] = 0
 				rep.Coverage["rule"] = "none: the sweep did not finish, the process running it was ended by the Go runtime"
+				rep.Coverage["samples"] = []any{map[string]any{"stderr_of_the_sweep": tail}}
 				rep.Finish()
 				return
 			}
